@@ -44,7 +44,9 @@ def gen_plan(seed, tier):
   d = r.randint(2, 8)
   c = r.choice([2, 3, 3, 4])
   if cls == "LFDA" and r.random() < 0.6:
-    sizes = [r.choice([4, 5, 6, 9, 14]) for _ in range(c)]
+    sizes = [r.choice([1, 2, 3, 4, 5, 6, 9, 14]) for _ in range(c)]
+    if sum(1 for z in sizes if z >= 2) == 0:
+      sizes[0] = 5
     n = sum(sizes)
     while n < 4 * d:
       sizes[r.randrange(c)] += 4
